@@ -399,3 +399,39 @@ M('c12-cached-error-rechained-through-local', 'C12', 'R1', 'falcon/request.py', 
   "            err = self._media_error\n            raise err from RuntimeError('media was already consumed')\n")
 # negative controls (exit 0): `err = self._media_error` / `raise err`; the "render the media" block of Response.render_body moved into
 # `Response._serialize_media()` that returns the rendition (k1-c12-1) or stores it itself
+
+
+# ---- second preserving wave (k2-c12-2): the render block moved into Response._render_media(), which tests the cache, stores the
+# rendition AND returns what the cache holds; render_body does `data = self._render_media()`.  "refactoring + break" mutants:
+_RB = ("                if self._media_rendered is _UNSET:\n                    if not self.content_type:\n"
+       "                        self.content_type = self.options.default_media_type\n\n"
+       "                    handler, _, _ = self.options.media_handlers._resolve(\n"
+       "                        self.content_type, self.options.default_media_type\n                    )\n\n"
+       "                    self._media_rendered = handler.serialize(\n                        self._media, self.content_type\n                    )\n\n"
+       "                data = self._media_rendered\n")
+_RB_CALL = "                data = self._render_media()\n"
+_REPR = "    def __repr__(self) -> str:\n        return f'<{self.__class__.__name__}: {self.status}>'\n"
+_H_HEAD = "    def _render_media(self) -> bytes:\n"
+_H_BODY = ("            if not self.content_type:\n                self.content_type = self.options.default_media_type\n\n"
+           "            handler, _, _ = self.options.media_handlers._resolve(\n                self.content_type, self.options.default_media_type\n            )\n\n"
+           "            self._media_rendered = handler.serialize(self._media, self.content_type)\n\n")
+# the helper lost the cache test: every render_body() serializes again
+M2('c12-k2-render-helper-without-cache-test', 'C12', 'R4', [
+    {'file': 'falcon/response.py', 'old': _RB, 'new': _RB_CALL},
+    {'file': 'falcon/response.py', 'old': _REPR, 'new': _H_HEAD + "        if True:\n" + _H_BODY + "        return self._media_rendered\n\n" + _REPR}],
+   also=('C05', 'C06'))
+# the cache test inverted
+M2('c12-k2-render-helper-cache-test-inverted', 'C12', 'R4', [
+    {'file': 'falcon/response.py', 'old': _RB, 'new': _RB_CALL},
+    {'file': 'falcon/response.py', 'old': _REPR,
+     'new': _H_HEAD + "        if self._media_rendered is not _UNSET:\n" + _H_BODY + "        return self._media_rendered\n\n" + _REPR}],
+   also=('C05', 'C06'))
+# the helper hands back a local read from the cache BEFORE the store: the first render answers the sentinel
+M2('c12-k2-render-helper-returns-stale-local', 'C12', 'R4', [
+    {'file': 'falcon/response.py', 'old': _RB, 'new': _RB_CALL},
+    {'file': 'falcon/response.py', 'old': _REPR,
+     'new': _H_HEAD + "        cached = self._media_rendered\n        if cached is _UNSET:\n" + _H_BODY + "        return cached\n\n" + _REPR}],
+   also=('C05', 'C06'))
+# negative controls (silent for C12 R4 / C05 R8): preserving/k2-c12-2; the helper returning through `rendered = self._media_rendered` bound
+# after the store; `cached = self._media_rendered` / `if cached is _UNSET:` as the cache test (in render_body or in the helper) with a
+# re-read after the store
